@@ -4134,12 +4134,10 @@ static Value eval_expression(ASTNode *expr, Environment *env) {
             Value result = create_void();
             for (int i = 0; i < expr->as.block.count; i++) {
                 result = eval_statement(expr->as.block.statements[i], env);
-                /* If statement returned a value, propagate it immediately */
-                if (result.is_return) {
-                    /* Clear the return flag since we're handling it */
-                    result.is_return = false;
-                    result.is_break = false;
-                    result.is_continue = false;
+                /* return / break / continue inside a match arm leave the arm AND act on the
+                 * enclosing function / loop: the flags travel on to the statement that owns them
+                 * (the call clears is_return, the loops clear is_break / is_continue) */
+                if (result.is_return || result.is_break || result.is_continue) {
                     return result;
                 }
             }
